@@ -11,16 +11,56 @@ NOT_APPLICABLE = {
     'C11': 'relation between two complete program executions through an HDF5 file; no function contract expresses it (DESIGN §6)',
     'C20': 'behaviour is produced inside boost::program_options; a contract proof would be about an axiomatisation of boost (DESIGN §6)',
 }
-for _p in ('C01 C02 C03 C04 C05 C06 C07 C09 C10 C12 C13 C14 C15 C16 C17 C18 C19').split():
+for _p in ('C03 C04 C05 C06 C07 C09 C10 C12 C13 C14 C16 C17 C18 C19').split():
     NOT_APPLICABLE[_p] = PENDING
 
+SM_KICK = [sm.CalcCoefficiants, sm.UpdateSM, sm.KickMapApply, sm.SourceMapCtor, sm.SourceMapCtor7, sm.KickMapCtor,
+           sm.RFCalcKick, sm.RFKickMapLinearCtor, sm.RFKickMapSinCtor, sm.DriftMapCtor]
+SM_FP = [sm.FokkerPlanckCtor, sm.FokkerPlanckApply]
+TECH = 'contract-based deductive verification: contracts (specs/*.py) enforced on the real functions by a VCG over the clang AST, z3 (cvc5 second opinion); lemma layer over contract symbols'
+
 PROPERTIES = {
-    'C08': {
+    'C01': {
+        'units': SM_KICK + SM_FP + [sm.IdentityApply],
+        'lemmas': [sm.lemmas_weights, sm.lemmas_c01_col, sm.lemmas_fp, sm.lemmas_fp_transition],
+        'level': 'proof',
+        'claim': 'every transport operator (kick maps via table rows, Fokker-Planck stencil, identity) has interior column sums 1 '
+                 '(FP: within e1 next to the zero-energy bin): functional posts of apply + row contracts of the table builders + weight lemmas; '
+                 'unbounded in grid size, bunch count, order, offsets; ideal arithmetic',
+        'assumptions': [A_IDEAL, A_SUMCOMM, A_LIB, DROPS, 'WakePotentialMap::update is covered under C05/C06 (same KickMap::updateSM/apply contracts)'],
+        'explanation': 'column sums of each step operator from the contracts of the table builders and of apply',
+        'technique': TECH,
+    },
+    'C02': {
         'units': [sm.CalcCoefficiants, sm.UpdateSM, sm.KickMapApply],
-        'lemmas': [],
+        'lemmas': [sm.lemmas_weights],
+        'level': 'other',
+        'claim': 'weights are the Lagrange basis on the stated nodes (partition of unity, reproduction of monomials below the order, unit vector at f=0) and '
+                 'the table row/stencil selection of updateSM/apply is proved for all sizes in ideal arithmetic; bit-exactness of whole-cell shifts and the rounding of the '
+                 '2^30 fractional weights are not covered by this check',
+        'assumptions': [A_IDEAL, A_LIB, DROPS],
+        'uncovered': ['bit-for-bit equality of whole-cell shifts (needs IEEE semantics)', 'rounding error of the weights over all 2^30 single-precision offsets', 'RotationMap::genHInfo'],
+        'explanation': 'polynomial-reproduction lemmas over the contract weights plus the functional contracts of updateSM and apply; level other because rounding is not modelled',
+        'technique': TECH,
+    },
+    'C08': {
+        'units': SM_KICK + SM_FP + [sm.IdentityApply],
+        'lemmas': [sm.lemmas_c08],
+        'technique': TECH,
         'level': 'proof',
         'claim': 'every transport map transforms bunch n using only bunch n data and the table rows belonging to n (or the shared rows); frames proved; unbounded in grid size, bunch count, interpolation order',
         'assumptions': [A_IDEAL, A_LIB, DROPS],
         'explanation': 'per-bunch functional postconditions (ghost cell n,x,y) and frames of every transport map',
+    },
+    'C15': {
+        'units': [sm.KickMapApplyTo, sm.FokkerPlanckApplyTo, sm.UpdateSM, sm.CalcCoefficiants],
+        'lemmas': [sm.lemmas_weights],
+        'level': 'other',
+        'claim': 'a tracked particle is displaced by minus the linearly interpolated offset (the displacement of the charge, by the k=1 moment lemma), every map keeps both '
+                 'coordinates on the grid, the stochastic model is an Ornstein-Uhlenbeck step about the zero-energy bin; for every real position/offset (ideal arithmetic)',
+        'assumptions': [A_IDEAL, A_LIB, DROPS, 'random draws are unconstrained reals', 'HDF5File::appendTracks index obligation is part of C17'],
+        'uncovered': ['statistical statement that an ensemble keeps mean and width (consequence of the OU step, not machine-checked)', 'NaN/inf inputs (ideal arithmetic has none)'],
+        'explanation': 'posts of KickMap::applyTo and FokkerPlanckMap::applyTo for all four tracking models',
+        'technique': TECH,
     },
 }
